@@ -29,6 +29,9 @@ class Fake:
         if o == "othererror":
             raise Boom("y")
 
+    def close(self):
+        pass
+
     def get(self, key, default=None, **kw):
         self._do()
         return "v"
